@@ -83,11 +83,23 @@ fn gen_tree(r: &mut StdRng, mlog: &Path) -> Files {
     for (i, s) in srcs.iter().enumerate() {
         let dir = model::dir_of(s).to_string();
         let mut body = String::new();
-        // dependency on a later source's output (acyclic by construction)
-        if i + 1 < srcs.len() && r.gen_bool(0.3) {
-            let dep = &srcs[r.gen_range(i + 1..srcs.len())];
-            let dep_out = model::output_of(dep).unwrap();
-            body.push_str(&format!("-TXTPP#include {}\n", crate::gen::rel(&dir, &dep_out)));
+        if r.gen_range(0..12) == 0 {
+            // an empty source: its output is the empty file (it still has to be created)
+            files.insert(s.clone(), vec![]);
+            continue;
+        }
+        // dependencies on later sources' outputs (acyclic by construction), up to three
+        let mut used: Vec<usize> = vec![];
+        for _ in 0..3 {
+            if i + 1 < srcs.len() && r.gen_bool(0.3) {
+                let k = r.gen_range(i + 1..srcs.len());
+                if used.contains(&k) {
+                    continue;
+                }
+                used.push(k);
+                let dep_out = model::output_of(&srcs[k]).unwrap();
+                body.push_str(&format!("-TXTPP#include {}\n", crate::gen::rel(&dir, &dep_out)));
+            }
         }
         body.push_str(&format!("//TXTPP#run echo {} >> {}\n", marker_id(s), mlog.display()));
         body.push_str(&format!("body of {s}\n"));
@@ -337,12 +349,21 @@ fn check(ctx: &mut Ctx, case: &Case, mlog: &Path, via_cli: bool) {
             } else {
                 // observed processed set
                 let mut observed = BTreeSet::new();
+                // (empty sources carry no marker command: verify cannot observe them, they are
+                // taken as expected there; build and clean observe them through their output)
+                let has_marker = |s: &String| files[s].windows(14).any(|w| w == b"TXTPP#run echo");
                 for s in &srcs {
                     let o = model::output_of(s).unwrap();
                     let processed = match case.mode {
                         Mode::Build | Mode::InMemoryBuild => after.files.contains_key(&o),
                         Mode::Clean => !after.files.contains_key(&o),
-                        Mode::Verify => counts.get(&marker_id(s)).copied().unwrap_or(0) > 0,
+                        Mode::Verify => {
+                            if has_marker(s) {
+                                counts.get(&marker_id(s)).copied().unwrap_or(0) > 0
+                            } else {
+                                exp.contains(s)
+                            }
+                        }
                     };
                     if processed {
                         observed.insert(s.clone());
@@ -360,7 +381,7 @@ fn check(ctx: &mut Ctx, case: &Case, mlog: &Path, via_cli: bool) {
                 if !matches!(case.mode, Mode::Clean) {
                     for s in &srcs {
                         let got = counts.get(&marker_id(s)).copied().unwrap_or(0);
-                        let want = if exp.contains(s) { 1 } else { 0 };
+                        let want = if exp.contains(s) && has_marker(s) { 1 } else { 0 };
                         if got != want && observed == *exp {
                             ctx.violation(format!("C11:{mname}:marker-count"), format!("source {s} executed its marker command {got} times (expected {want}); inputs {inputs:?}"), cj());
                         }
